@@ -349,6 +349,55 @@ def rule_E3(run, prog, E):
         judge(f, _scan(prog, E, f, roots))
     if nfun < 40:
         raise AnalysisError("effect analysis covered only %d functions" % nfun)
+    # numerical kernels: module-level functions of the propagator modules that the methods call with the arrays of their
+    # arguments.  A kernel may write into the array it is given for the result; a write (also through a local alias:
+    # `psi2 = psii; psi2 += ...`) into a parameter that a caller binds to the data of one of its own arguments is a
+    # write into the caller's state.
+    from .. import arrays
+    from ..loader import FuncInfo
+    nker = 0
+    for q in list(PROPS) + ["quantarhei.qm.propagators.oqssvpropagator.OQSStateVectorPropagator"]:
+        cls = prog.cls(q)
+        for name, f in cls.methods.items():
+            mparams = [a.arg for a in f.node.args.args if a.arg != "self"]
+            for c in walk_no_nested(f.node):
+                if not (isinstance(c, ast.Call) and isinstance(c.func, ast.Name)):
+                    continue
+                try:
+                    tgt = prog.resolve_name(f.module, c.func.id, f)
+                except Exception:
+                    tgt = None
+                if not isinstance(tgt, FuncInfo) or tgt.cls is not None or not hasattr(tgt.node, "args"):
+                    continue
+                kparams = [a.arg for a in tgt.node.args.args]
+                al = arrays.aliases(tgt.node, kparams)
+                written = {}
+                for node, text in arrays.inplace_effects(tgt.node, set(kparams) | al):
+                    # which parameter does the written name go back to?
+                    base = node.target if isinstance(node, ast.AugAssign) else (node.targets[0] if isinstance(node, ast.Assign) else None)
+                    while isinstance(base, ast.Subscript):
+                        base = base.value
+                    nm = base.id if isinstance(base, ast.Name) else None
+                    if nm is None:
+                        continue
+                    srcs = {nm} if nm in kparams else {p_ for p_ in kparams if nm in arrays.aliases(tgt.node, [p_])}
+                    for p_ in srcs:
+                        written.setdefault(p_, (node, text))
+                nker += 1
+                for p_, a_ in zip(kparams, c.args):
+                    if p_ not in written:
+                        continue
+                    root = a_
+                    while isinstance(root, (ast.Attribute, ast.Subscript)):
+                        root = root.value
+                    from_input = isinstance(root, ast.Name) and root.id in mparams
+                    run.obligation(rid, f.short, not from_input, key="kernel-writes-input:%s:%s" % (tgt.name, p_),
+                                   message="%s hands %s to the kernel %s as `%s`, and the kernel writes into that array (`%s`): the "
+                                           "caller's %s is changed by the call, and the next call with it starts from another state"
+                                           % (f.short, norm(a_), tgt.name, p_, written[p_][1], root.id if isinstance(root, ast.Name) else ""),
+                                   loc=f.loc(c), sample={"kernel": tgt.name, "parameter": p_})
+    if nker < 1:
+        raise AnalysisError("C15-E3: no call of a module-level kernel found in the propagators")
     # justification checks for the accepted effects
     rp = prog.cls("quantarhei.qm.propagators.rdmpropagator.ReducedDensityMatrixPropagator")
     for name, f in rp.methods.items():
